@@ -538,7 +538,21 @@ func allocationRule(c *Ctx, r *Report) {
 			case "":
 				r.OK("R07c", name, "setAt index", c.Pos(ci.Pos()), "index is a loop counter, a range index or a length of an existing array")
 			case "idx":
-				// idxField.i: capped when it comes from parseField (C20); the API index of parsePathIdx is not capped
+				// idxField.i: capped when it comes from parseField (C20); the API index of parsePathIdx is
+				// capped only if the call is dominated by a comparison of the same index with options.maxIdx
+				isMax := func(v ssa.Value) bool {
+					v = stripConv(v)
+					if u, ok := v.(*ssa.UnOp); ok && u.Op == token.MUL {
+						if nt, f, ok := FieldOf(u.X); ok && nt.Obj().Name() == "options" && f == "maxIdx" {
+							return true
+						}
+					}
+					return false
+				}
+				if UpperBoundBy(arg, FactsAt(ci.(ssa.Instruction).Block()), isMax, false) {
+					r.OK("R07c", name, "setAt index", c.Pos(ci.Pos()), "index field compared with options.maxIdx before the list is grown (and parsed indices are capped by parseField)")
+					continue
+				}
 				r.Bad("R07c", name, "setAt index", c.Pos(ci.Pos()), "the list is grown up to an index field that is capped by MaxIdx only when it was parsed from text (parseField); the idx argument of the setters (parsePathIdx) reaches this allocation uncapped: SetInt(name, 1<<40, ...) requests 2^40 slots")
 			default:
 				r.Bad("R07c", name, "setAt index", c.Pos(ci.Pos()), "setAt is called with an index of unknown provenance: "+why)
